@@ -1,6 +1,6 @@
 (** C15 — all routes agree. Where two DIFFERENT algorithms serve the same operation, their agreement is a corollary
     of both being proved equal to the specification. *)
-From CB Require Import Model.Limbs Model.AddSub Model.Mul Proofs.WordP Proofs.LimbsP Proofs.AddSubP.
+From CB Require Import Model.Limbs Model.AddSub Model.Mul Model.Div Model.Sqrt Model.Cmp Proofs.WordP Proofs.LimbsP Proofs.AddSubP Proofs.RoutesP.
 From Coq Require Import ZArith List Lia.
 Open Scope Z_scope.
 
@@ -21,3 +21,79 @@ Print Assumptions C15_boxed_adc_is_uint_adc.
 Theorem C15_boxed_sbb_is_uint_sbb : forall a b c, length a = length b -> boxed_sbb a b c = uint_sbb a b c.
 Proof. exact boxed_sbb_eq_uint. Qed.
 Print Assumptions C15_boxed_sbb_is_uint_sbb.
+
+(* ---------------- different algorithms, same operation: corollaries of the owning model = spec theorems ---------------- *)
+
+(** Uint::div_rem (constant time) and Uint::div_rem_vartime return the same quotient and remainder limbs *)
+Theorem C15_div_ct_is_vartime : forall x y, wf x -> wf y -> length y = length x -> eval y <> 0 ->
+  uint_div_rem x y = Some (div_rem_vartime x y).
+Proof. exact div_ct_eq_vartime. Qed.
+Print Assumptions C15_div_ct_is_vartime.
+
+(** BoxedUint::div_rem = Uint::div_rem at equal precision *)
+Theorem C15_boxed_div_is_uint_div : forall x y, wf x -> wf y -> length y = length x -> eval y <> 0 ->
+  boxed_div_rem x y = uint_div_rem x y.
+Proof. exact boxed_div_eq_uint. Qed.
+Print Assumptions C15_boxed_div_is_uint_div.
+
+(** BoxedUint::div_rem_vartime = Uint::div_rem_vartime for every pair of widths *)
+Theorem C15_boxed_div_vartime_is_uint_div_vartime : forall x y, wf x -> wf y -> eval y <> 0 ->
+  boxed_div_rem_vartime x y = Some (div_rem_vartime x y).
+Proof. exact boxed_div_vartime_eq_uint. Qed.
+Print Assumptions C15_boxed_div_vartime_is_uint_div_vartime.
+
+Theorem C15_boxed_rem_vartime_is_rem : forall x y, wf x -> wf y -> eval y <> 0 ->
+  boxed_rem_vartime x y = Some (snd (div_rem_vartime x y)).
+Proof. exact boxed_rem_vartime_eq. Qed.
+Print Assumptions C15_boxed_rem_vartime_is_rem.
+
+(** rem_wide_vartime with a zero high half = the ordinary remainder *)
+Theorem C15_rem_wide_zero_hi_is_rem : forall lo y, wf lo -> wf y -> length y = length lo -> eval y <> 0 ->
+  rem_wide_vartime lo (zeros (length lo)) y = snd (div_rem_vartime lo y).
+Proof. exact rem_wide_zero_hi_eq. Qed.
+Print Assumptions C15_rem_wide_zero_hi_is_rem.
+
+(** fixed-size Karatsuba at every level = schoolbook; the Uint dispatch = schoolbook; boxed Karatsuba = schoolbook = fixed *)
+Theorem C15_karatsuba_is_schoolbook : forall l x y m, wf x -> wf y -> length x = (2 ^ l * m)%nat -> length y = length x ->
+  kmul l x y = split_at (length x) (schoolbook_mul x y).
+Proof. exact kmul_eq_schoolbook. Qed.
+Print Assumptions C15_karatsuba_is_schoolbook.
+
+Theorem C15_uint_mul_is_schoolbook : forall x y, wf x -> wf y ->
+  uint_split_mul x y = split_at (length x) (schoolbook_mul x y).
+Proof. exact uint_split_mul_eq_schoolbook. Qed.
+Print Assumptions C15_uint_mul_is_schoolbook.
+
+Theorem C15_boxed_mul_is_schoolbook : forall x y, wf x -> wf y -> boxed_mul x y = schoolbook_mul x y.
+Proof. exact boxed_mul_eq_schoolbook. Qed.
+Print Assumptions C15_boxed_mul_is_schoolbook.
+
+Theorem C15_boxed_mul_is_fixed_mul : forall x y lo hi, wf x -> wf y -> uint_split_mul x y = (lo, hi) ->
+  boxed_mul x y = lo ++ hi.
+Proof. exact boxed_mul_eq_fixed. Qed.
+Print Assumptions C15_boxed_mul_is_fixed_mul.
+
+Theorem C15_squares_agree : forall x, wf x ->
+  schoolbook_sq x = schoolbook_mul x x /\ boxed_square x = schoolbook_mul x x.
+Proof. exact squares_agree. Qed.
+Print Assumptions C15_squares_agree.
+
+(** the four square-root routes (fixed / boxed, constant-time / vartime) return the same limbs *)
+Theorem C15_sqrt_routes_agree : forall a, wf a -> length a <> 0%nat ->
+  uint_sqrt_vartime a = uint_sqrt a /\ boxed_sqrt a = uint_sqrt a /\ boxed_sqrt_vartime a = uint_sqrt a.
+Proof. exact sqrt_routes_agree. Qed.
+Print Assumptions C15_sqrt_routes_agree.
+
+(** cmp, cmp_vartime and the boxed cmp_vartime agree *)
+Theorem C15_cmp_routes_agree : forall a b, wf a -> wf b -> length a = length b ->
+  uint_cmp_vartime a b = uint_cmp a b /\ boxed_cmp_vartime a b = uint_cmp a b.
+Proof. exact cmp_routes_agree. Qed.
+Print Assumptions C15_cmp_routes_agree.
+
+(** non-vacuity: the routes really are different algorithms that meet on concrete inputs (Karatsuba level 1 with a
+    negative middle term; a division that needs the add-back) *)
+Example C15_nonvacuous :
+  kmul 1 [1; MAXW] [MAXW; 1] = split_at 2 (schoolbook_mul [1; MAXW] [MAXW; 1]) /\
+  uint_div_rem [MAXW; MAXW; MAXW - 1] [MAXW; MAXW; 0] = Some (div_rem_vartime [MAXW; MAXW; MAXW - 1] [MAXW; MAXW; 0]) /\
+  uint_sqrt [0; 1] = uint_sqrt_vartime [0; 1].
+Proof. vm_compute. repeat split; reflexivity. Qed.
